@@ -891,7 +891,25 @@ def compound_table(ctx, res):
                         ast.fix_missing_locations(ast.Expr(value=call)), node)
             return node
     import copy as _copy
-    body = [_ForToExtend().visit(_copy.deepcopy(s_)) for s_ in loop.body]
+    # single-definition temporaries of the loop body stand for their
+    # definition (`handler_validate = handler.validate`)
+    tmp_defs = {}
+    for a_ in loop.body:
+        if isinstance(a_, ast.Assign) and len(a_.targets) == 1 \
+                and isinstance(a_.targets[0], ast.Name) \
+                and isinstance(a_.value, ast.Attribute) \
+                and a_.targets[0].id not in lists \
+                and a_.targets[0].id != fvn:
+            tmp_defs.setdefault(a_.targets[0].id, []).append(a_.value)
+    tmp_defs = {k: v[0] for k, v in tmp_defs.items() if len(v) == 1}
+
+    class _Subst(ast.NodeTransformer):
+        def visit_Name(self, node):
+            if isinstance(node.ctx, ast.Load) and node.id in tmp_defs:
+                return _copy.deepcopy(tmp_defs[node.id])
+            return node
+    body = [_ForToExtend().visit(_Subst().visit(_copy.deepcopy(s_)))
+            for s_ in loop.body]
     for b_ in body:
         ast.fix_missing_locations(b_)
     wrapper = ast.FunctionDef(name="body", args=fn.args, body=body,
